@@ -33,6 +33,8 @@ type fsModel struct {
 type fsHandle struct {
 	name   string
 	closed bool
+	off    int
+	app    bool
 }
 
 type fsCrash struct{}
@@ -156,7 +158,7 @@ func init() {
 		if flag&syscall.O_TRUNC != 0 {
 			f.data = nil
 		}
-		return Tuple{&Native{V: reflectValueOf(&fsHandle{name: name})}, Iface{}}
+		return Tuple{&Native{V: reflectValueOf(&fsHandle{name: name, app: flag&syscall.O_APPEND != 0})}, Iface{}}
 	})
 	handle := func(fr *frame, v Value) *fsHandle {
 		n, ok := v.(*Native)
@@ -181,12 +183,27 @@ func init() {
 		}
 		in.fsStep(fr, "write "+h.name)
 		if f := in.fs.files[h.name]; f != nil {
-			f.data = append(f.data, data...)
+			// a write lands at the handle's offset (end of file with O_APPEND) and
+			// overwrites what is there: opening without O_TRUNC keeps the old tail
+			if h.app {
+				h.off = len(f.data)
+			}
+			for len(f.data) < h.off {
+				f.data = append(f.data, 0)
+			}
+			n := copy(f.data[h.off:], data)
+			f.data = append(f.data, data[n:]...)
+			h.off += len(data)
 		}
 		return Tuple{in.intC(int64(len(data))), Iface{}}
 	}
 	reg("(*os.File).Write", write)
 	reg("(*os.File).WriteString", write)
+	reg("(*os.File).Sync", func(fr *frame, a []Value) Value {
+		h := handle(fr, a[0])
+		fr.in.fsStep(fr, "sync "+h.name)
+		return Iface{}
+	})
 	reg("(*os.File).Close", func(fr *frame, a []Value) Value { handle(fr, a[0]).closed = true; return Iface{} })
 	reg("(*os.File).Name", func(fr *frame, a []Value) Value { return handle(fr, a[0]).name })
 	reg("os.Remove", func(fr *frame, a []Value) Value {
